@@ -307,6 +307,10 @@ def adjust_intervals(
     """
     # When supplied intervals are empty and t_max and t_min are supplied,
     # create one interval from t_min to t_max with the label start_label
+    # Never modify the caller's label list
+    if labels is not None:
+        labels = list(labels)
+
     if t_min is not None and t_max is not None and intervals.size == 0:
         return np.array([[t_min, t_max]]), [start_label]
     # When intervals are empty and either t_min or t_max are not supplied,
@@ -388,6 +392,10 @@ def adjust_events(events, labels=None, t_min=0.0, t_max=None, label_prefix="__")
         Event times corrected to the given range.
 
     """
+    # Never modify the caller's label list
+    if labels is not None:
+        labels = list(labels)
+
     if t_min is not None:
         first_idx = np.argwhere(events >= t_min)
 
